@@ -409,7 +409,9 @@ def layer2(ctx, res, known, V, work, lines):
         short = l.replace(hp, "hp")
         res.nontrivial("L2:" + short)
         # class trailing-backslash: the physical line ends in a backslash, run_script's fold joins it with the next one
+        # (a complete line can only end in an EVEN number of backslashes: the last one is escaped)
         tb = l.endswith("\\")
+        tbc = "trailing-backslash"
         for e in ENT:
             if same(o[e], o["c"]):
                 st["same_as_c"] = st.get("same_as_c", 0) + 1
@@ -425,12 +427,11 @@ def layer2(ctx, res, known, V, work, lines):
             if not same(o[e], pred):
                 V("oracle", "L2", l, {"entry": e + " on the model's folding %r" % folded, **pred}, {"entry": e, **o[e]}, True,
                   "a line ending in a backslash differs from -c, and not in the way recorded for class trailing-backslash")
-            elif "trailing-backslash" not in known:
-                V("oracle", "L2", l, o["c"], o[e], True, "class trailing-backslash is not listed in known_findings.txt")
+            elif tbc not in known:
+                V("oracle", "L2", l, o["c"], o[e], True, "class %s is not listed in known_findings.txt" % tbc)
             else:
-                res.known("trailing-backslash", "class=trailing-backslash e.g. %s line %r: argv %r, with -c: %r" % (
-                    e, short, o[e]["argv"], o["c"]["argv"]))
-                st["trailing-backslash"] = st.get("trailing-backslash", 0) + 1
+                res.known(tbc, "class=%s e.g. %s line %r: argv %r, with -c: %r" % (tbc, e, short, o[e]["argv"], o["c"]["argv"]))
+                st[tbc] = st.get(tbc, 0) + 1
     res.sample({"layer": "L2", "line": pick[5].replace(hp, "hp"), "c": outs[5]["c"], "script": outs[5]["script"],
                 "function": outs[5]["function"], "source": outs[5]["source"]})
     res.sample({"layer": "L2", "line": pick[2].replace(hp, "hp"), "c": outs[2]["c"], "script": outs[2]["script"]})
